@@ -14,6 +14,37 @@ pub struct ExReverse<T>(Reverse<T>);
 
 pub uninterp spec fn heap_view<T, A: std::alloc::Allocator>(h: BinaryHeap<T, A>) -> Multiset<T>;
 
+// Assumed specifications of std::collections::BinaryHeap (std docs: "BinaryHeap is a max-heap": peek/pop
+// return the greatest item) and of std::cmp::Reverse ("a helper struct for reverse ordering").
+// ord_rel::<T>(a, b) means "a <= b under T's Ord impl"; for a type with an OrdSpecImpl it is that spec
+// (for OperationTimeoutRecord the real `Ord::cmp` body is verified against its spec in U-protocol).
+pub uninterp spec fn ord_rel<T>(a: T, b: T) -> bool;
+pub broadcast axiom fn ax_ord_rel_reverse<T>(a: Reverse<T>, b: Reverse<T>)
+    ensures #[trigger] ord_rel::<Reverse<T>>(a, b) == ord_rel::<T>(b.0, a.0);
+pub broadcast axiom fn ax_ord_rel_spec<T: Ord>(a: T, b: T)
+    requires T::obeys_cmp_spec(),
+    ensures #[trigger] ord_rel::<T>(a, b) == (a.cmp_spec(&b) != Ordering::Greater);
+
+pub assume_specification<T> [std::collections::BinaryHeap::<T>::new] () -> (r: BinaryHeap<T>)
+    ensures heap_view(r) == Multiset::<T>::empty();
+pub assume_specification<T: Ord, A: std::alloc::Allocator> [std::collections::BinaryHeap::<T, A>::push] (h: &mut BinaryHeap<T, A>, item: T)
+    ensures heap_view(*final(h)) == heap_view(*old(h)).insert(item);
+pub assume_specification<'a, T, A: std::alloc::Allocator> [std::collections::BinaryHeap::<T, A>::peek] (h: &'a BinaryHeap<T, A>) -> (r: Option<&'a T>)
+    ensures match r {
+        Some(x) => heap_view(*h).count(*x) > 0 && forall|y: T| #[trigger] heap_view(*h).count(y) > 0 ==> ord_rel::<T>(y, *x),
+        None => heap_view(*h) == Multiset::<T>::empty(),
+    };
+pub assume_specification<T: Ord, A: std::alloc::Allocator> [std::collections::BinaryHeap::<T, A>::pop] (h: &mut BinaryHeap<T, A>) -> (r: Option<T>)
+    ensures match r {
+        Some(x) => heap_view(*old(h)).count(x) > 0 && (forall|y: T| #[trigger] heap_view(*old(h)).count(y) > 0 ==> ord_rel::<T>(y, x))
+            && heap_view(*final(h)) == heap_view(*old(h)).remove(x),
+        None => heap_view(*old(h)) == Multiset::<T>::empty() && heap_view(*final(h)) == heap_view(*old(h)),
+    };
+pub assume_specification<T, A: std::alloc::Allocator> [std::collections::BinaryHeap::<T, A>::clear] (h: &mut BinaryHeap<T, A>)
+    ensures heap_view(*final(h)) == Multiset::<T>::empty();
+pub assume_specification<T, A: std::alloc::Allocator> [std::collections::BinaryHeap::<T, A>::is_empty] (h: &BinaryHeap<T, A>) -> (r: bool)
+    ensures r == (heap_view(*h) == Multiset::<T>::empty());
+
 // ---- trusted shim: client/mod.rs `type ResponseHandler<T> = Box<dyn FnOnce(T) -> GneissResult<()> + Send + Sync>`
 // (Verus: "dyn with more than one trait" unsupported) -> opaque one-shot handler
 #[verifier::external_body]
